@@ -16,6 +16,7 @@ import (
 
 	"github.com/thought-machine/please/src/core"
 	"github.com/thought-machine/please/src/gc"
+	gologging "gopkg.in/op/go-logging.v1"
 )
 
 // ---------------------------------------------------------------------------------------------
@@ -903,6 +904,7 @@ func jsLabels(ls []core.BuildLabel) []string {
 }
 
 func main() {
+	gologging.SetLevel(gologging.CRITICAL, "plz") // gc.go logs every decision at debug/notice level
 	lib.Main("C25", func(c *lib.Ctx) {
 		c.Model("From PlzV Require Import Model.C25.", "C25.case", "C25.check")
 		c.Rule("graphs of 2-12 targets built with the real core API (NewBuildTarget, AddDependency, ResolveDependencies, AddSource, AddDatum, " +
